@@ -218,6 +218,8 @@ def gen(rng):
         sc["nonblocking"] = True  # zero-timeout socket polled every T: 'would block' takes the place of the timeout
     if rng.random() < 0.12:
         sc["no_multithread"] = True  # WebSocket(enable_multithread=False): the no-op lock stand-in
+    if rng.random() < 0.1:
+        sc["logtrace"] = True  # enableTrace(True)
     return sc
 
 
@@ -266,7 +268,7 @@ def run(sc, choices=None):
                "cuts": list(sc.get("cuts", ())), "gaps": dict(sc.get("gaps", {})),
                "read_caps": list(sc.get("read_caps", ())), "read_caps_cyclic": sc.get("read_caps_cyclic", False),
                "max_calls": len(frames) + 8, "nonblocking": bool(sc.get("nonblocking")),
-               "no_multithread": bool(sc.get("no_multithread"))}
+               "no_multithread": bool(sc.get("no_multithread")), "logtrace": bool(sc.get("logtrace"))}
         n = len(stream)
         for c in cfg["cuts"]:
             if not isinstance(c, int) or c > n:
@@ -284,7 +286,7 @@ def run(sc, choices=None):
     if cfg["timeout"] is not None and cfg["timeout"] < 1024:
         raise InvalidScenario("timeout too small")
     seed = int(sc.get("seed", 1))
-    bkey = (stream, api, cfg["timeout"], cfg["end"], seed, cfg["nonblocking"], cfg["no_multithread"])
+    bkey = (stream, api, cfg["timeout"], cfg["end"], seed, cfg["nonblocking"], cfg["no_multithread"], cfg["logtrace"])
     base = _base_cache.get(bkey)
     if base is None:
         bcfg = dict(cfg, cuts=[], gaps={}, read_caps=[])
@@ -295,6 +297,10 @@ def run(sc, choices=None):
         _base_cache[bkey] = base
     a = run_recv(seed, stream, cfg, res)
     ctx = api
+    if base[0] and base[0][0][0] == "connect_exc":
+        # the response is a correct upgrade and arrives in one piece: a connect() that fails in the plain run as well would
+        # make every comparison below vacuous
+        res.violate("valid_handshake_refused", ctx, f"connect() failed although the response is a correct upgrade in one segment: {base[0][0]}")
     if a["obs"] != base[0]:
         i = 0
         while i < min(len(a["obs"]), len(base[0])) and a["obs"][i] == base[0][i]:
